@@ -118,7 +118,7 @@ def maps_term(maps, qnums):
     return '(Some ' + lst([lst([tup(zraw(q), zraw(d[q])) for q in qnums]) for d in maps]) + ')'
 
 
-EXTRA = '''From Model Require Import PeriodicTable IsoBits IsoBitsExt.
+EXTRA = '''From Model Require Import PeriodicTable IsoBits IsoBitsExt IsoBitsPyx.
 From Gen Require Import Elements.
 Import ListNotations.
 Open Scope Z_scope.
@@ -131,6 +131,14 @@ Definition mask_run (rq : list rqent) (rm : list ratom) (scope : list bool) : op
 Definition ref_run (rq : list rqent) (rm : list ratom) (scope : list bool) : option (list (list (Z * Z))) :=
   option_map (map (ref_mapping rq rm)) (ref_search rq rm scope FUEL).
 (* occ = highest stack cell the transpiled loop wrote (+1), al1 / al2 = cells it allocated for stack_index / stack_depth *)
+Definition tr_eqb (a c : Z * nat * list Z * list Z * nat) : bool :=
+  let '(n1, d1, p1, m1, s1) := a in let '(n2, d2, p2, m2, s2) := c in
+  (n1 =? n2) && Nat.eqb d1 d2 && list_eqb Z.eqb p1 p2 && list_eqb Z.eqb m1 m2 && Nat.eqb s1 s2.
+Definition trace_ok (rq : list rqent) (rm : list ratom) (scope : list bool) (obs : list (Z * nat * list Z * list Z * nat)) : bool :=
+  match pyx_run (enc_query rq) (enc_mol rm) scope FUEL with
+  | Some (_, tr, cl) => list_eqb tr_eqb tr obs && forallb (Z.eqb 0) cl
+  | None => false
+  end.
 Definition pair_ok (rq : list rqent) (rm : list ratom) (scope : list bool) (omask oref : option (list (list (Z * Z)))) (occ al1 al2 : Z) : bool :=
   maps_eqb (mask_run rq rm scope) omask && maps_eqb (ref_run rq rm scope) oref &&
   (Z.of_nat (alloc_pyx (enc_query rq) (enc_mol rm)) =? al1) && (al1 =? al2) &&
@@ -454,8 +462,9 @@ def in_range_query(s, mdl):
 # ---------------------------------------------------------------------------------------------------------
 # running the two real paths at the level of one component / one scope
 
-def run_pyx(mod, qbuf, mbuf, scope_bits):
+def run_pyx(mod, qbuf, mbuf, scope_bits, trace=None):
     mod.MAX_WRITTEN.clear()
+    mod.TRACE = trace
     try:
         return list(mod.get_mapping(qbuf, mbuf, array('I', scope_bits))), None
     except Exception as e:  # MemoryFault of the transpiled C memory model, struct errors, ...
@@ -1012,10 +1021,12 @@ def component_runs(q, m, rng, mod, full_only=False):
     for ci, comp in enumerate(comps):
         for sc in scopes:
             bits = [int(n in sc) for n in nums]
-            fast, err = run_pyx(mod, qbufs[ci], mbuf, bits)
+            trace = []
+            fast, err = run_pyx(mod, qbufs[ci], mbuf, bits, trace)
+            mod.TRACE = None
             occ = (mod.MAX_WRITTEN.get('stack_index', 0), mod.ALLOCATED.get('stack_index', -1), mod.ALLOCATED.get('stack_depth', -1))
             slow = run_py(comp, clo, m, sc)
-            runs.append((ci, comp, bits, fast, err, slow, occ))
+            runs.append((ci, comp, bits, fast, err, slow, occ, trace))
     return (comps, clo, qbufs, mbuf, runs), None
 
 
@@ -1032,6 +1043,8 @@ def corr_pairs(ck, rng, mod, lay):
     ck.extra['smarts_library'] = len(lib)
     cases, meta = [], []
     hyp_cases = []
+    trace_cases, trace_meta = [], []
+    n_trace_iter = 0
     seen_mol, seen_q = set(), set()
     mismatches = []
     n_pairs = n_oracle = 0
@@ -1088,7 +1101,7 @@ def corr_pairs(ck, rng, mod, lay):
                 for ci, comp in enumerate(comps):
                     cases.append(f'enc_query_ok {rq_term(comp, clo)} {query_t_term(decode_query(qbufs[ci], lay))}')
                     meta.append(('enc_query', qtext, ci))
-            for ci, comp, bits, fast, err, slow, occ in runs:
+            for ci, comp, bits, fast, err, slow, occ, trace in runs:
                 qnums = [e[0] for e in comp]
                 if err is not None:
                     if not h_none:
@@ -1118,6 +1131,15 @@ def corr_pairs(ck, rng, mod, lay):
                 if kind == 'polycycle' and rng.random() >= (p_poly * 2 if any(clo.get(e[0]) for e in comp) and (slow or fast) else p_poly / 2):
                     continue
                 n_pairs += 1
+                if not all(t[5] for t in trace) and not h_none:
+                    dirty = next(i for i, t in enumerate(trace) if not t[5])
+                    mismatches.append((qtext, text, q, m, f'the closures scratch array of the .pyx is not all zero at the top of iteration {dirty} '
+                                                          '(stale entries can be read by a later candidate)'))
+                if len(trace) <= 120 and (n_pairs % (4 if ck.tier == 'quick' else 2) == 1 or kind == 'polycycle' and n_pairs % 2):
+                    trace_cases.append(f'trace_ok {rq_term(comp, clo)} {rm} {lst(bits, lambda x: b(bool(x)))} ' +
+                                       lst([tup(zraw(t[0]), f'{t[1]}%nat', lst(t[2], zraw), lst(t[3], zraw), f'{t[4]}%nat') for t in trace]))
+                    trace_meta.append((qtext, text, ci, len(trace)))
+                    n_trace_iter += len(trace)
                 if n_pairs % (8 if ck.tier == 'quick' else 3) == 0:
                     hyp_cases.append(f'gm_hyps_ok {rq_term(comp, clo)} {rm}')
                 cases.append(f'pair_ok {rq_term(comp, clo)} {rm} {lst(bits, lambda x: b(bool(x)))} {maps_term(fast, qnums)} {maps_term(slow, qnums)} {occ[0] if n_pairs % 3 == 0 or ck.tier != "quick" else "(-1)"} {occ[1]} {occ[2]}')
@@ -1134,6 +1156,19 @@ def corr_pairs(ck, rng, mod, lay):
               '_get_mapping == ref_search as SEQUENCES of mappings (every component / scope call)', ok and not failing, 'correspondence',
               log or str([meta[i] for i in failing[:5]]))
     ck.extra['correspondence_cases_search'] = len(cases)
+    # intermediate states: the trace of the transpiled loop (state at the top of every iteration) == the trace of pyx_run
+    hook_ok = len(getattr(mod, 'TRACE_HOOKS', [])) == 1
+    ck.oblige('the loop of _isomorphism.pyx has exactly one observation point (`n = stack_index[stack]`)', hook_ok, 'translator',
+              repr(getattr(mod, 'TRACE_HOOKS', None)))
+    okt, ft, logt = coqcases.run_cases('c09_trace', 'PyBase', trace_cases if hook_ok else [], extra=EXTRA, shard=150)
+    ck.oblige('correspondence on intermediate states: (popped atom, depth, path, matched flags, stack size) at the top of every iteration of the '
+              'transpiled .pyx loop == the trace of pyx_run, and the closures scratch array is all zero there', okt and not ft and hook_ok,
+              'correspondence', logt or str([trace_meta[i] for i in ft[:5]]))
+    ck.extra['trace_cases'] = len(trace_cases)
+    ck.extra['trace_iterations_compared'] = n_trace_iter
+    if not hook_ok or not okt or ft:
+        ck.unchecked('trace correspondence pyx_run vs the transpiled loop', (logt or 'observation point not found')[-1500:],
+                     [repr(trace_meta[i]) for i in ft[:20]])
     # how many of the compared calls lie inside the hypotheses of C09_get_mapping_equiv_b (information, not an obligation)
     okh, outside, _ = coqcases.run_cases('c09_hyp', 'PyBase', hyp_cases, extra=EXTRA, shard=200)
     if okh:
@@ -1427,7 +1462,7 @@ def run(ck):
                         'queries, every component / scope call; non-trivial = at least one mapping. search: public API on corpus molecules.')
     import time
     t0 = time.time()
-    proved = common.standard_proof_steps(ck, translators=['elements'])
+    proved = common.standard_proof_steps(ck, translators=['elements', 'isoclosure'])
     ck.extra['phase_s'] = {'proof': round(time.time() - t0, 1)}
     rng = random.Random(ck.seed * 7919 + 9)
     try:
